@@ -92,7 +92,7 @@ class MemoryGroup : public NodeGroupMetaInfo
 
 
 		Node_MemPort *findSuitableResetWritePort();
-		NodePort buildResetAddrCounter(Circuit &circuit,size_t width, Clock *resetClock);
+		NodePort buildResetAddrCounter(Circuit &circuit,size_t width, Clock *resetClock, size_t numEntries);
 
 		void giveName(Circuit &circuit, NodePort &nodePort, std::string name);
 
